@@ -2,7 +2,7 @@
 from fractions import Fraction as Fr
 import itertools
 import numpy as np
-from .common import guarded, run_model, rats, rows, ints, fracs, close
+from .common import guarded, run_model, rats, rows, ints, fracs, close, POOL, layout
 from .npcutil import npc_exact
 
 RULE = ("p-value vectors with j = 2..6 in every kind of order (sorted, reversed, rotations/3-cycles, random, ties), "
@@ -70,8 +70,12 @@ def run(ctx):
         pv = [Fr(v, den) for v in vals]
         hi = ctx.rng.choice([2, 4, 9])
         D = [[ctx.rng.randint(0, hi) for _ in range(j)] for _ in range(B)]
-        pf = np.array([float(v) for v in pv]); Df = np.array(D, dtype=float)
+        pf = POOL.get("pv", [float(v) for v in pv], float); Df = layout(POOL.get("distr", D, float), ctx.rng)
         snap_p, snap_D = pf.copy(), Df.copy()
+        if ctx.rng.random() < 0.35:      # other combiners first, on the very same contents and options
+            for first in ctx.rng.sample(["liptak", "tippett", "fisher"], 2):
+                guarded(npc.fwer_minp, pf, Df, combine=first, plus1=plus1)
+                guarded(npc.npc, pf, Df, combine=first, plus1=plus1)
         r = guarded(npc.fwer_minp, pf, Df, combine=(user if comb == "callable" else comb), plus1=plus1)
         nontriv = any(pv[i] > pv[i + 1] for i in range(j - 1))
         det = {"call": "fwer_minp", "pvalues": [str(v) for v in pv], "distr": D, "combine": comb, "plus1": plus1}
